@@ -632,7 +632,7 @@ func init() {
 	Register(&Engine{
 		Prop: "C06", Name: "mountsim", Run: runC06,
 		Trials: map[string]int{"quick": 40000, "thorough": 400000},
-		Rule:   "three drawn modes. routing: 0-4 mount points out of {a, ab, b, a/b, a/b/c, ab/c} (nested points, string-prefix look-alikes), every constituent a separate mem.FS with distinguishable content, the iteration order of the mount table redrawn from the choice stream on every lookup; 2-15 operations through the mount FS over paths up to depth 4, each compared with the same operation applied directly to the constituent a ten-line routing spec selects on twin constituents, all constituents compared afterwards; AddMount attempts on missing/regular/mounted/'.'/invalid paths and MountPoints() are judged. cross-rename: a regular file (0..40000 bytes) renamed across two mounts whose constituents sit behind fault wrappers (create fails, k-th write fails after a prefix, close loses the tail, removal of the source fails, destination existed): only at the destination with the same bytes and mode, or error and both sides unchanged. concurrent-addmount: 2-4 tasks mount the same/nested points under the seeded scheduler (gates at mountMu and inside the parent FS): exactly one winner per point, table = winners, no deadlock; distinct = event-log hash",
+		Rule:   "three drawn modes. routing: 0-4 mount points out of {a, ab, b, a/b, a/b/c, ab/c} (nested points, string-prefix look-alikes), every constituent a separate mem.FS with distinguishable content, the iteration order of the mount table redrawn from the choice stream on every lookup; 2-15 operations through the mount FS over paths up to depth 4, each compared with the same operation applied directly to the constituent a ten-line routing spec selects on twin constituents, all constituents compared afterwards; AddMount attempts on missing/regular/mounted/'.'/invalid paths and MountPoints() are judged. cross-rename: a regular file (0..40000 bytes) renamed across two mounts whose constituents sit behind fault wrappers (create fails, k-th write fails after a prefix, close loses the tail, removal of the source fails, destination existed): only at the destination with the same bytes and mode, or error and both sides unchanged. concurrent-addmount: 2-4 tasks mount the same/nested points under the seeded scheduler (gates at mountMu and inside the parent FS): exactly one winner per point, table = winners, no deadlock; distinct = event-log hash Also: a task that only looks paths up while AddMount calls race and a write below every mounted point afterwards against the routing spec; a destination without any Chmod; a missing source and a destination whose files cannot be written (Rename fails, nothing changes); AddMount while the parent fails one call (nil means mounted); no handle of the mount FS's own stays open after AddMount or Rename.",
 		Components: map[string][]string{
 			"real": {"mount.FS", "fs.go MountFS delegation", "mem.FS constituents"},
 			"stub": {"fault wrappers around constituents (cross-rename mode)"},
